@@ -18,14 +18,14 @@ def run(ctx):
     ctx.assumptions += sessin.ASSUME + ['no client list configured (LoginParameters::_clients empty); client-list membership and IP matching are outside this run',
                                         'no SessionConfig (_sf null): loggers/persister are not created at logon; no login schedule']
     for lens in lens_list(ctx.tier):
-        ctx.add(Harness('C23_sid_%04x' % lens, VERIF + '/harness/C23_sid.c', defines=defs + ['LENS=0x%04x' % lens, 'VF_MAXCOPY=16'], unwind=4, unwindset=sessin.US + ['str_eq.0:3', 'main.0:3'],
+        ctx.add(Harness('C23_sid_%04x' % lens, VERIF + '/harness/C23_sid.c', defines=defs + ['LENS=0x%04x' % lens, 'VF_MAXCOPY=40'], unwind=12, unwindset=sessin.US,
                         timeout=600, functions=FUN_SID, stubs=['std::string out-of-line members: models/cxx.c', 'SessionID::make_id (log text) not run'],
                         bounds='all pairs of identities whose SenderCompID/TargetCompID have lengths %d,%d / %d,%d and arbitrary bytes' % (lens >> 12 & 15, lens >> 8 & 15, lens >> 4 & 15, lens & 15),
                         desc='SessionID comparison operators against byte-wise equality'))
     for role, rn in ((0, 'acceptor'), (1, 'initiator')):
         for lens in lens_list(ctx.tier)[:2 if ctx.tier == 'quick' else None]:
-            ctx.add(Harness('C23_logon_%s_%04x' % (rn, lens), VERIF + '/harness/C23_logon.c', defines=defs + ['ROLE=%d' % role, 'LENS=0x%04x' % lens, 'VF_MAXCOPY=16'], unwind=4,
-                            unwindset=sessin.US + ['digits_value.0:8', 'raw_seq.0:8', 'str_eq.0:3', 'main.0:3', 'main.1:8', 'main.2:6'], timeout=900, functions=FUN_LOGON, stubs=sessin.STUBS + ['Timer::schedule := recorded'],
+            ctx.add(Harness('C23_logon_%s_%04x' % (rn, lens), VERIF + '/harness/C23_logon.c', defines=defs + ['ROLE=%d' % role, 'LENS=0x%04x' % lens, 'VF_MAXCOPY=40'], unwind=12,
+                            unwindset=sessin.US, timeout=900, functions=FUN_LOGON, stubs=sessin.STUBS + ['Timer::schedule := recorded'],
                             bounds='one Logon processed by a %s in its pre-logon state; own/inbound CompIDs of lengths 0x%04x with arbitrary bytes; enforce_compids, silent_disconnect, reliable, authentication result, '
                                    'ResetSeqNumFlag absent/N/Y, HeartBtInt 1..3600, MsgSeqNum 0..9999999, pre-logon sequence numbers 1..9999999' % (rn, lens),
                             desc='logon acceptance oracle over the real handle_logon'))
